@@ -960,7 +960,13 @@ class ServerTls(Server):
         If successful move to .ixes
         """
         for ca, cx in self.cxes.items():
-            if cx.serviceHandshake():
+            try:
+                handshaked = cx.serviceHandshake()
+            except Exception as ex:  # handshake failed, .handshake closed cx
+                cx.close()
+                del self.cxes[ca]  # so failed connection does not block the others
+                raise
+            if handshaked:
                 if ca in self.ixes and self.ixes[ca] is not cx:
                     self.shutdownIx(ca)  # stale connection from same address
                 self.ixes[ca] = cx
